@@ -46,37 +46,61 @@ func (p Prog) clone() Prog {
 var entryTokens = []string{
 	"a", "b", "c", "ab", "|", "(", "(?:", ")", "[", "]", "a-c", "*", "+", "?", "{2}", ".", "^", "$",
 	`\.`, `\\`, `\x5c`, `"`, `\"`, `\s`, `\t\n\f\r `, " ", "!-~", `\x00`, "é", `\b`,
+	`\(?i:`, // literal text that looks like an engine flag group
 }
 
 // additional tokens for C02 (pasting safety)
-var entryTokensC02 = []string{"\t", "\x01", "\x7f", `\x22`, `\Q"\E`, `\x{2019}`}
+var entryTokensC02 = []string{"\t", "\x01", "\x7f", `\x22`, `\Q"\E`, `\x{2019}`, `\(?-s:`, `\)`, `(?s:.)`, `(?i:a)`}
 
 var inlineFlag = regexp.MustCompile(`\(\?[a-zA-Z-]+[:)]`)
 
 // validEntry: the property's well-formedness of a single entry.
-func validEntry(e string) bool {
+func validEntry(e string) bool { return validEntryFlags(e, false) }
+
+// validEntryFlags: allowFlags admits inline flag groups in the entry (C02 quantifies over all compiling programs).
+func validEntryFlags(e string, allowFlags bool) bool {
 	if e == "" || e[0] == ' ' || e[0] == '\t' || strings.TrimSpace(e) == "" {
 		return false
 	}
 	if strings.HasPrefix(e, "##!") {
 		return false
 	}
-	if inlineFlag.MatchString(e) {
+	if !allowFlags && hasInlineFlag(e) {
 		return false
 	}
 	_, err := syntax.Parse(e, syntax.Perl)
 	return err == nil
 }
 
+// hasInlineFlag: an unescaped `(?flags:` / `(?flags)` outside a bracket expression.
+func hasInlineFlag(e string) bool {
+	inClass := false
+	for i := 0; i < len(e); i++ {
+		switch {
+		case e[i] == '\\':
+			i++
+		case e[i] == '[' && !inClass:
+			inClass = true
+		case e[i] == ']' && inClass:
+			inClass = false
+		case e[i] == '(' && !inClass && inlineFlag.MatchString(e[i:]) && inlineFlag.FindStringIndex(e[i:])[0] == 0:
+			return true
+		}
+	}
+	return false
+}
+
 // enumEntries lists all valid entries of 1..max tokens (as token lists), in simplest-first order.
-func enumEntries(tokens []string, max int) [][]string {
+func enumEntries(tokens []string, max int) [][]string { return enumEntriesFlags(tokens, max, false) }
+
+func enumEntriesFlags(tokens []string, max int, allowFlags bool) [][]string {
 	var out [][]string
 	enumSeq(len(tokens), max, func(_ int, seq []int) {
 		toks := make([]string, len(seq))
 		for i, s := range seq {
 			toks[i] = tokens[s]
 		}
-		if validEntry(strings.Join(toks, "")) {
+		if validEntryFlags(strings.Join(toks, ""), allowFlags) {
 			out = append(out, toks)
 		}
 	})
